@@ -896,3 +896,25 @@ Proof.
   - intros [[n' f] [Hn Hin]]. simpl in Hn. subst n'. apply filter_In in Hin as [Hin Hf]. exists f. split; assumption.
   - intros [f [Hin Hf]]. exists (n, f). split; [reflexivity|]. apply filter_In. split; assumption.
 Qed.
+
+Theorem deciders_exact s :
+  (r_dup_rank s = true <-> dup_rank s) /\ (r_undeclared s = true <-> undeclared_tensor s) /\
+  (r_repeated s = true <-> repeated_tensor s) /\ (r_term_mismatch s = true <-> term_rank_mismatch s) /\
+  (r_flatten_with_others s = true <-> flatten_with_others s) /\ (r_flatten_lt2 s = true <-> flatten_lt2 s) /\
+  (r_flatten_index_math s = true <-> flatten_index_math s) /\
+  (r_flatten_and_partitioned s = true <-> flatten_and_partitioned s) /\
+  (r_flatten_of_flattened s = true <-> flatten_of_flattened s) /\
+  (r_nway_after_occupancy s = true <-> nway_after_occupancy s) /\
+  (r_shape_after_flatten s = true <-> shape_after_flatten s) /\
+  (r_directive_on_tuple s = true <-> directive_on_tuple s) /\
+  (r_project_into_output s = true <-> project_into_output s) /\
+  (r_output_only_flattened_loop s = true <-> output_only_flattened_loop s) /\
+  (r_missing_config s = true <-> missing_config s).
+Proof.
+  repeat split;
+    first [apply r_dup_rank_iff | apply r_undeclared_iff | apply r_repeated_iff | apply r_term_mismatch_iff
+          | apply r_flatten_with_others_iff | apply r_flatten_lt2_iff | apply r_flatten_index_math_iff
+          | apply r_flatten_and_partitioned_iff | apply r_flatten_of_flattened_iff | apply r_nway_after_occupancy_iff
+          | apply r_shape_after_flatten_iff | apply r_directive_on_tuple_iff | apply r_project_into_output_iff
+          | apply r_output_only_flattened_loop_iff | apply r_missing_config_iff].
+Qed.
